@@ -1372,10 +1372,14 @@ def check_namespace(ctx):
     jobs = [dict(Case(f'ns{impl}', 'namespace', impl, empty).job(), want_namespace=True) for impl in IMPLS]
     for impl, r in zip(IMPLS, run_worker(REPO, jobs)):
         live = set(r.get('namespace') or [])
-        if r.get('imp') != 'ok' or live != ctx.model_reserved[impl]:
-            ctx.disagree(f'{impl}: names bound by the template: only in the module {sorted(live - ctx.model_reserved[impl])}, '
-                         f'only in the model {sorted(ctx.model_reserved[impl] - live)} ({r.get("gen_detail") or r.get("imp_detail")})',
-                         {'kind': 'table', 'what': 'namespace', 'impl': impl})
+        missing = ctx.model_reserved[impl] - live
+        if r.get('imp') != 'ok' or missing:
+            ctx.disagree(f'{impl}: names the model takes as bound by the template are not in the generated module: {sorted(missing)} '
+                         f'({r.get("gen_detail") or r.get("imp_detail")})', {'kind': 'table', 'what': 'namespace', 'impl': impl})
+        elif live - ctx.model_reserved[impl]:
+            # harmless for the theorem (a specification may shadow a name the generated code never uses); the spec generator avoids them
+            ctx.notes.append(f'{impl}: module namespace has names unknown to the model: {sorted(live - ctx.model_reserved[impl])}')
+            RESERVED_CLASS.update(live)
 
 
 def sexp_to_spec(t):
